@@ -30,8 +30,17 @@ def main():
     except core.Infra as e:
         print(f'INFRA {prop}: {e}', file=sys.stderr)
         return 2
-    except Exception:
+    except Exception as e:
+        tb = traceback.extract_tb(e.__traceback__)
+        in_impl = [f for f in tb if f.filename.startswith('/repo/')]
         traceback.print_exc()
+        if in_impl:
+            # the implementation raised where the harness expects it to work on valid input: the correspondence
+            # (model says a value, code raises) is broken; no failing input was isolated by an oracle
+            f = in_impl[-1]
+            ctx.proof_breaks.append(f'implementation raised {type(e).__name__}: {e} at {f.filename}:{f.lineno} '
+                                    f'({f.name}) while the harness observed it on a generated valid input')
+            return ctx.finish(getattr(mod, 'LEVEL', 'proof'), None)
         return 2
 
 
